@@ -138,12 +138,26 @@ def _gen_batched(rng, tier):
             str(base + 2): [["recv_until_end"], ["respond", 200, [(b"x-tag", b"%d" % (base + 2))], b"late-%d" % (base + 2)]],
         }
         blob = client_preface(fb, rspec)
-        blob += fb.headers(1, [(b":method", b"POST"), (b":scheme", b"http"), (b":path", b"/t%d" % base), (b":authority", b"h")], end_stream=False)
-        blob += fb.data(1, b"part", end_stream=False)
+        shape1 = rng.choice(["early_answered_upload", "early_answered_upload", "ws_closed_by_server", "refused_by_server_name"])
+        config = {"keep_alive_timeout": 5000}
+        if shape1 == "ws_closed_by_server":
+            # stream 1 stays open on the protocol level (WebSocket over HTTP/2, the server has said goodbye) but has nothing left to send
+            by_tag[str(base)] = [["recv"], ["send", {"type": "websocket.accept"}], ["send", {"type": "websocket.close", "code": 1000}], ["recv_until_disconnect"]]
+            blob += fb.headers(1, [(b":method", b"CONNECT"), (b":protocol", b"websocket"), (b":scheme", b"http"), (b":path", b"/t%d" % base),
+                                   (b":authority", b"h"), (b"sec-websocket-version", b"13")], end_stream=False)
+        elif shape1 == "refused_by_server_name":
+            config["server_names"] = ["h"]
+            blob += fb.headers(1, [(b":method", b"POST"), (b":scheme", b"http"), (b":path", b"/t%d" % base), (b":authority", b"other.example")], end_stream=False)
+        else:
+            blob += fb.headers(1, [(b":method", b"POST"), (b":scheme", b"http"), (b":path", b"/t%d" % base), (b":authority", b"h")], end_stream=False)
+            blob += fb.data(1, b"part", end_stream=False)
         blob += fb.headers(3, [(b":method", b"GET"), (b":scheme", b"http"), (b":path", b"/t%d" % (base + 1)), (b":authority", b"h")], end_stream=True)
-        first = rng.choice(["rst_answered", "rst_answered", "data_answered", "wu_answered", "rst_unknown_closed"])
+        first = rng.choice(["rst_answered", "rst_answered", "data_answered", "wu_answered", "rst_unknown_closed", "nothing", "settings_iw"])
+        if shape1 != "early_answered_upload" and first == "data_answered":
+            first = "nothing"
         batch = {"rst_answered": fb.rst(1, 8), "data_answered": fb.data(1, b"more", end_stream=True),
-                 "wu_answered": fb.window_update(1, 100), "rst_unknown_closed": fb.rst(1, 8) + fb.rst(1, 8)}[first]
+                 "wu_answered": fb.window_update(1, 100), "rst_unknown_closed": fb.rst(1, 8) + fb.rst(1, 8), "nothing": b"",
+                 "settings_iw": b""}[first]
         need = size + 100
         batch += fb.window_update(3, need) + fb.window_update(0, need)
         new_stream = rng.random() < 0.5
@@ -152,10 +166,10 @@ def _gen_batched(rng, tier):
         streams = [{"sid": 3, "tag": base + 1, "size": size, "rst_at": None, "dep": 0}]
         if new_stream:
             streams.append({"sid": 5, "tag": base + 2, "size": len(b"late-%d" % (base + 2)), "rst_at": None, "dep": 0, "literal": True})
-        yield {"family": "batched." + first, "backends": ["asyncio", "trio"], "config": {"keep_alive_timeout": 5000}, "conn": {},
+        yield {"family": "batched.%s.%s" % (shape1, first), "backends": ["asyncio", "trio"], "config": config, "conn": {},
                "apps": {"default": [["recv_until_end"], ["respond", 200, [], b"d"]], "by_tag": by_tag},
-               "client": [["feed", blob], ["settle"], ["react", "credit_only", 3, need], ["react", "credit_only", 0, need],
-                          ["feed", batch], ["settle"]], "reactor": rspec,
+               "client": [["feed", blob], ["settle"]] + ([["react", "settings", {"4": iw + 1}]] if first == "settings_iw" else []) +
+                         [["react", "credit_only", 3, need], ["react", "credit_only", 0, need], ["feed", batch], ["settle"]], "reactor": rspec,
                "truth": {"streams": streams, "iw": iw, "mf": 16384, "policy": "batched", "total": size, "prio_cycle": False, "batched": first},
                "sched": {"seed": rng.randrange(1 << 30), "net_jitter": None}, "horizon": 100.0}
 
